@@ -87,40 +87,40 @@ def _admission(ctx):
                                 not n.ast.value.value))]
     ctx.require(accepts, 'accepting return of check_app_constraints')
 
-    def label_ok(edge):
-        for atom in nz.facts_of_edge(edge):
-            key = atom.key
-            if key[0] == 'in' and key[3] and \
-                    key[1] == '%s.allocation.label' % app and \
-                    key[2] == 'self.labels':
-                return True
-            if key[0] == 'is' and key[3] and \
-                    key[1] == '%s.allocation' % app and key[2] == 'None':
-                return True
-            if key[0] == 'truth' and not key[2] and \
-                    key[1] == '%s.allocation' % app:
-                return True
+    def label_atom(atom):
+        key = atom.key
+        if key[0] == 'in' and key[3] and \
+                key[1] == '%s.allocation.label' % app and \
+                key[2] == 'self.labels':
+            return True
+        if key[0] == 'is' and key[3] and \
+                key[1] == '%s.allocation' % app and key[2] == 'None':
+            return True
+        if key[0] == 'truth' and not key[2] and \
+                key[1] == '%s.allocation' % app:
+            return True
         return False
 
-    def traits_ok(edge):
-        for atom in nz.facts_of_edge(edge):
-            key = atom.key
-            if key[0] == 'truth' and key[2] and \
-                    key[1] == 'self.traits.has(%s.traits)' % app:
-                return True
-            if key[0] == 'cmp' and key[1] == '==' and \
-                    [t for t, _c in key[2]] == ['%s.traits' % app]:
-                return True
-            if key[0] == 'truth' and not key[2] and \
-                    key[1] == '%s.traits' % app:
-                return True
+    def traits_atom(atom):
+        key = atom.key
+        if key[0] == 'truth' and key[2] and \
+                key[1] == 'self.traits.has(%s.traits)' % app:
+            return True
+        if key[0] == 'cmp' and key[1] == '==' and \
+                [t for t, _c in key[2]] == ['%s.traits' % app]:
+            return True
+        if key[0] == 'truth' and not key[2] and \
+                key[1] == '%s.traits' % app:
+            return True
         return False
     for node in accepts:
-        ctx.ob('C03.1', pred, node, K.guarded_by(pgraph, node, label_ok),
+        ctx.ob('C03.1', pred, node,
+               K.guarded_by_atoms(ctx, pred, pgraph, node, label_atom, nz),
                'accept only when the allocation label is among the node '
                'labels (or there is no allocation)',
                construct='accept => partition label')
-        ctx.ob('C03.1', pred, node, K.guarded_by(pgraph, node, traits_ok),
+        ctx.ob('C03.1', pred, node,
+               K.guarded_by_atoms(ctx, pred, pgraph, node, traits_atom, nz),
                'accept only when the node has every required trait (or '
                'none is required)', construct='accept => traits')
     # lifetime
@@ -145,7 +145,7 @@ def _admission(ctx):
                 ctx.ob('C03.1', life, node, ok,
                        'unconditional accept only for lease 0')
             continue
-        atom = nz.atom(val) if val is not None else None
+        atom = nz.atom_at(node, val) if val is not None else None
         ok = atom is not None and N.same_direction(atom, want)
         ctx.ob('C03.1', life, node, ok,
                'leased instance admitted only under %s (found %s)' % (
@@ -204,7 +204,7 @@ def _bypass(ctx, nz, server):
                           f.key[0] == 'is' and not f.key[3] and
                           f.key[1] == 'presence_time'
                           for f in facts[site])
-            extra = [N.show(f) for f in facts[site]
+            extra = [N.show(f) for f in N.raw_only(facts[site])
                      if 'presence_time' not in f.mentions and
                      any(m.startswith('server') for m in f.mentions)]
             ok = have_le and have_tr
@@ -466,7 +466,7 @@ def _unknown_traits(ctx):
     efacts = N.must_facts(graph, nz)
     extra = []
     for node in ors:
-        for fact in efacts[node]:
+        for fact in N.raw_only(efacts[node]):
             key = fact.key
             if key[0] == 'truth' and key[1] == 'use_invalid' and key[2]:
                 continue
